@@ -272,6 +272,7 @@ pub fn generate(seed: u64, n: usize, thorough: bool, _corpus: Option<&str>) -> V
             solver_cases(&lm, &["variable-free".to_string()], "variable-free", &variants, &mut cases);
         }
     }
+    for lm in gen_lp::variable_free_block() { solver_cases(&lm, &["variable-free-block".to_string()], "variable-free", &variants, &mut cases); }
     let mut r3 = Rng::new(seed ^ 0xc7c1e);
     for (name, lm) in gen_lp::cycling_classics(&mut r3) { solver_cases(&lm, &[name.to_string()], "cycling-classics", &variants, &mut cases); }
     let mut r2 = Rng::new(seed ^ 0x2fa5e);
